@@ -552,6 +552,13 @@ pub mod cluster {
         .await
     }
 
+    /// Whether the node of `state` with this host id has a connection pool at all - the real
+    /// `pool.is_some()`, not the state override that `is_enabled()` reports for hook-built states
+    /// (`None` = no such node).
+    pub fn node_has_pool(state: &ClusterState, host_id: Uuid) -> Option<bool> {
+        state.known_nodes.get(&host_id).map(|n| n.pool.is_some())
+    }
+
     /// A host filter that accepts exactly the peers whose host id is in the set.
     struct AcceptSet(std::collections::HashSet<Uuid>);
     impl HostFilter for AcceptSet {
